@@ -148,7 +148,15 @@ def rnd_history(rnd, nops, zst):
         k = rnd.random()
         ri = rnd.randint(1, len(lay))
         rn = lay[ri - 1][1]
-        if k < 0.28:
+        if k < 0.08:
+            # transfers against a stream that delivers short counts / interruptions / errors (same actions as C14)
+            if rnd.random() < 0.6:
+                op = rnd.choice(["s_read_from", "s_read_exact_from", "s_write_to", "s_write_all_to"])
+                a = {"addr": addr(), "count": max(cnt() if rnd.random() < 0.9 else 3, 0) % 200, "script": rnd_script(rnd)}
+            else:
+                op = rnd.choice(["rs_read_from", "rs_read_exact_from", "rs_write_to", "rs_write_all_to"])
+                a = {"ri": ri, "addr": min(roff(rn), rn + 1), "count": rnd.choice([0, 1, 2, rn - 1, rn, rn + 1, 7]), "script": rnd_script(rnd)}
+        elif k < 0.28:
             op = rnd.choice(["find_region", "to_region_addr", "address_in_range", "check_address", "checked_offset",
                              "check_range", "check_range", "last_addr", "get_host_address", "get_slice", "get_slice",
                              "num_regions", "iter"])
